@@ -10,6 +10,7 @@ import (
 	"github.com/drand/drand/v2/crypto"
 	"github.com/drand/drand/v2/crypto/vault"
 	"github.com/drand/drand/v2/internal/chain"
+	"github.com/drand/drand/v2/internal/metrics"
 	"github.com/drand/drand/v2/internal/zzfake"
 	zz "github.com/drand/drand/v2/internal/zzverif"
 )
@@ -72,7 +73,7 @@ func zzHandler(nw *zzNet, own int, clk *zzfake.Clock, store CallbackStore, clien
 		newPartials: make(chan partialInfo, defaultPartialChanBuffer), catchupBeacons: make(chan *common.Beacon, 1),
 		beaconStoredAgg: make(chan *common.Beacon, defaultNewBeaconBuffer), ctx: context.Background()}
 	return &Handler{conf: conf, client: client, crypto: v, chain: cs, addr: nw.group.Nodes[own].Address(), l: l, ctx: context.Background(),
-		version: common.GetAppVersion()}
+		version: common.GetAppVersion(), thresholdMonitor: metrics.NewThresholdMonitor(nw.group.ID, l, nw.group.Len(), nw.group.Threshold)}
 }
 
 // zzPartial builds one incoming partial according to a symbolic kind.
